@@ -39,8 +39,8 @@ def build(read):
     err_text, variants = parts.error_text(b, read)
     f1 = parts.copy_item(b, read, "src/eval/mod.rs", "fn", "get_str_range_index")
     f2 = parts.copy_item(b, read, "src/eval/mod.rs", "fn", "get_list_range_index")
-    f1 = extract.annotate_fn(f1, spec=SPEC_STR)
-    f2 = extract.annotate_fn(f2, spec=SPEC_LIST)
+    f1 = extract.annotate_fn(f1, spec=SPEC_STR, attrs="#[verifier::exec_allows_no_decreases_clause]\n")
+    f2 = extract.annotate_fn(f2, spec=SPEC_LIST, attrs="#[verifier::exec_allows_no_decreases_clause]\n")
     b.edits.append("D3/D4: Arc / Mutex transparent (A-lock); std <[T]>::to_vec element-wise clone specification (assume_specification)")
     b.text = assemble([
         "// GENERATED on every run by /verif/verus/range_read.py from /repo's working tree - do not edit",
